@@ -574,16 +574,16 @@ Lemma peer_close_ct : forall v c body txt, presL (I_ct v) (handle c (EPeerClose 
 Proof. intros v c body txt. pose proof (I_ct_core v) as Hcore. unfold handle. pres_go leaf_ct fail. Qed.
 
 Lemma responsive_close_reply : forall c evs body txt evs2,
-  gone (fst (run c evs)) = false -> st (fst (run c evs)) = CLOSING -> body_valid body ->
+  gone (fst (run c evs)) = false -> st (fst (run c evs)) = CLOSING -> rxPartial (fst (run c evs)) = false -> body_valid body ->
   wasCloseTO (fst (run c evs)) = false ->
   wasCloseTO (fst (run c (evs ++ EPeerClose body txt :: evs2))) = false.
 Proof.
-  intros c evs body txt evs2 Hg Hs Hv Hf.
+  intros c evs body txt evs2 Hg Hs Hx Hv Hf.
   replace (evs ++ EPeerClose body txt :: evs2) with ((evs ++ [EPeerClose body txt]) ++ evs2) by (rewrite <- app_assoc; reflexivity).
   apply responsive_close.
   - pose proof (forward_only_run c [EPeerClose body txt] (fst (run c evs)) (snd (run c evs))) as Hfw.
     rewrite run_app. rewrite Hs in Hfw. simpl in Hfw. exact Hfw.
-  - rewrite run_app, run_from_cons. simpl. unfold handle, ifS, frames_flow. rewrite Hg, Hs. simpl.
+  - rewrite run_app, run_from_cons. simpl. unfold handle, ifS, frames_ready, frames_flow. rewrite Hg, Hs, Hx. simpl.
     rewrite fst_seq. unfold upd. cbn [fst]. apply ocf_valid_clean; [exact Hv|exact Hs].
   - rewrite run_app, run_from_cons. simpl.
     apply (peer_close_ct false c body txt (snd (run c evs)) (fst (run c evs))). exact Hf.
@@ -595,7 +595,7 @@ Qed.
 Lemma core_pingPending : forall s s', same_core s s' -> pingPending s' = pingPending s.
 Proof. intros s s' H. destruct H as (_&_&_&_&_&_&_&_&_&_&_&_&_&_&_&H&_). exact H. Qed.
 
-Lemma responsive_ping_step : forall c s q, frames_flow s = true -> pingPending s = Some q ->
+Lemma responsive_ping_step : forall c s q, frames_ready s = true -> pingPending s = Some q ->
   TI1 (timers s) (now s) ->
   let s' := fst (step c s (EPeerPong true)) in
   pingPending s' = None /\ hPingTO s' = None /\ st s' = st s /\
@@ -624,4 +624,66 @@ Proof.
     + split; [rewrite (core_st _ _ Ec2); exact Sb|]. intros _.
       pose proof (arm_batched_pending TAutoPing (autoPingInterval c) sb) as Hp. rewrite Nb, Tb in Hp. apply Hp. exact TIa.
   - unfold ret. cbn [fst]. repeat split; auto. intro H. apply N.ltb_lt in H. congruence.
+Qed.
+
+(* ================================================================================================ *)
+(* "any traffic": the end of EVERY data frame -- final or not, first fragment or continuation, delivered in one read or
+   in several -- cancels a pending ping timeout and re-arms the ping, when autoPingRestartOnAnyTraffic is set *)
+Lemma restart_step : forall c s, isSome (hPingTO s) = true -> autoPingRestartOnAnyTraffic c = true ->
+  TI1 (timers s) (now s) ->
+  let s' := fst (restart_on_traffic c s) in
+  pingPending s' = None /\ hPingTO s' = None /\ st s' = st s /\ now s' = now s /\
+  (0 < autoPingInterval c -> pendLe TAutoPing (now s + autoPingInterval c) (timers s')).
+Proof.
+  intros c s Hto Hr HT. cbv zeta. unfold restart_on_traffic, ifS. rewrite Hto, Hr. simpl andb. cbv iota.
+  unfold cancel_auto_ping_timeout. rewrite !fst_seq. unfold upd. cbn [fst].
+  destruct (cancel_slot_eff TAutoPingTO s) as (Et & Ec & _).
+  set (sa := fst (cancel_slot TAutoPingTO s)) in *.
+  assert (Ha : hPingTO sa = None).
+  { unfold sa, cancel_slot. simpl slot_of. destruct (hPingTO s) eqn:E; simpl; [reflexivity|exact E]. }
+  assert (TIa : TI1 (timers sa) (now s)).
+  { destruct Et as [Et|[id Et]]; rewrite Et; [exact HT|apply TI1_remove; exact HT]. }
+  remember (set_pingPending None sa) as sb eqn:Hsb.
+  assert (Tb : timers sb = timers sa) by (subst sb; reflexivity).
+  assert (Nb : now sb = now s) by (subst sb; simpl; apply (core_now _ _ Ec)).
+  assert (Sb : st sb = st s) by (subst sb; simpl; apply (core_st _ _ Ec)).
+  destruct (cancel_slot_eff TAutoPing sb) as (Et3 & Ec3 & _).
+  set (sc := fst (cancel_slot TAutoPing sb)) in *.
+  assert (Pc : pingPending sc = None) by (rewrite (core_pingPending _ _ Ec3); subst sb; reflexivity).
+  assert (Hc : hPingTO sc = None).
+  { unfold sc, cancel_slot. simpl slot_of. destruct (hPing sb) eqn:E; simpl; subst sb; simpl; exact Ha. }
+  assert (Nc : now sc = now s) by (rewrite (core_now _ _ Ec3); exact Nb).
+  assert (Sc : st sc = st s) by (rewrite (core_st _ _ Ec3); exact Sb).
+  assert (TIc : TI1 (timers sc) (now s)).
+  { destruct Et3 as [Et3|[id Et3]]; rewrite Et3, Tb; [exact TIa|apply TI1_remove; exact TIa]. }
+  unfold whenM. destruct (0 <? autoPingInterval c) eqn:Ei.
+  - destruct (arm_batched_eff TAutoPing (autoPingInterval c) sc) as (Et2 & Ec2 & _).
+    split; [rewrite (core_pingPending _ _ Ec2); exact Pc|]. split; [unfold arm_batched; simpl; exact Hc|].
+    split; [rewrite (core_st _ _ Ec2); exact Sc|]. split; [rewrite (core_now _ _ Ec2); exact Nc|]. intros _.
+    pose proof (arm_batched_pending TAutoPing (autoPingInterval c) sc) as Hp. rewrite Nc in Hp. apply Hp. exact TIc.
+  - unfold ret. cbn [fst]. repeat split; auto. intro H. apply N.ltb_lt in H. congruence.
+Qed.
+
+Lemma any_data_frame_restarts : forall c s cont fin,
+  frames_ready s = true -> Bool.eqb cont (inMsg s) = true ->
+  isSome (hPingTO s) = true -> autoPingRestartOnAnyTraffic c = true -> TI1 (timers s) (now s) ->
+  let s' := fst (step c s (EPeerFrag cont fin)) in
+  pingPending s' = None /\ hPingTO s' = None /\
+  (0 < autoPingInterval c -> pendLe TAutoPing (now s + autoPingInterval c) (timers s')).
+Proof.
+  intros c s cont fin Hf Hc Hto Hr HT. cbv zeta. unfold step, handle, ifS. rewrite Hf, Hc. simpl andb. cbv iota.
+  unfold data_frame_end. rewrite fst_seq.
+  destruct (restart_step c s Hto Hr HT) as (P1 & P2 & _ & _ & P5).
+  set (s1 := fst (restart_on_traffic c s)) in *.
+  destruct fin.
+  - rewrite fst_seq. unfold upd, ifS, ret, say. destruct (failedByMe s1); simpl; auto.
+  - unfold upd. simpl. auto.
+Qed.
+
+(* the streaming send API outside OPEN: silently ignored, nothing is written *)
+Lemma streaming_not_open : forall c s, st s <> OPEN ->
+  step c s EBeginMessage = (s, []) /\ step c s ESendFrame = (s, []) /\ step c s EEndMessage = (s, []).
+Proof.
+  intros c s H. unfold step, handle, begin_message, send_message_frame, end_message, ifS, in_state, ret.
+  destruct (st s); simpl; auto. congruence.
 Qed.
